@@ -65,19 +65,73 @@ let read_variant () =
   let a = next () in let b = next () in let c = next () in
   { fix_leaf = (a <> 0); fix_af = (b <> 0); fix_reset = (c <> 0) }
 
-let dump_annot g (lr : amap) (lv : amap) =
+let dump_annot ?(only : int list option) g (lr : amap) (lv : amap) =
   let b = Buffer.create 256 in
   List.iteri (fun n nd ->
+    if (match only with None -> true | Some l -> List.mem n l) then begin
       List.iteri (fun p _ ->
           Buffer.add_string b (Printf.sprintf "r%d.%d=%s," n p (show_dist (lr (nat_of_int n) (nat_of_int p)))))
         nd.ins;
       List.iteri (fun i _ ->
           Buffer.add_string b (Printf.sprintf "v%d.%d=%s," n i (show_dist (lv (nat_of_int n) (nat_of_int i)))))
-        nd.outs) g;
+        nd.outs end) g;
   Buffer.contents b
 
 let show_entry e =
   Printf.sprintf "%d/%s/%d" (int_of_nat e.etarget) (ints e.epath) (if e.evalid then 1 else 0)
+
+let show_kind = function
+  | KLeaf v -> if v then "L1" else "L0"
+  | KDec (a, n) -> "D" ^ (if a then "1" else "0") ^ (if n then "1" else "0")
+  | KRef nm -> "R" ^ string_of_int (int_of_nat nm)
+let dump_graph (g : graph) =
+  String.concat ";" (List.mapi (fun n nd ->
+    Printf.sprintf "%d:%s:%s:%s" n (show_kind nd.nkind) (ints nd.outs)
+      (String.concat "," (List.map (fun (s, i) -> Printf.sprintf "%d.%d" (int_of_nat s) (int_of_nat i)) nd.ins))) g)
+
+(* stream GR: build, resolve(root, extra) -> result root, full node table *)
+let run_gr () =
+  let fuel = next_nat () in
+  let root = next_nat () in
+  let g = build (read_ops ()) in
+  let extra = next_list () in
+  match resolve fuel g root extra with
+  | Ok (g', r) ->
+    print_endline (Printf.sprintf "res=ok:%d|cons=%d|graph=%s" (int_of_nat r)
+      (if ins_okb g' && outs_okb g' then 1 else 0) (dump_graph g'))
+  | r -> print_endline ("res=" ^ show_res (fun _ -> "") r)
+
+(* stream GO: build, optimize(root) -> node table, then the observations of stream G *)
+let observe_g b v fuel g root lr0 lv0 xpaths =
+  Buffer.add_string b (Printf.sprintf "wf=%d|prod=%d|acyc=%d|"
+    (if wfb g root then 1 else 0) (if productiveb g then 1 else 0) (if acyclicb g then 1 else 0));
+  Buffer.add_string b ("items=" ^ show_res ints (items fuel g root));
+  (match generate_paths v fuel g root lr0 lv0 with
+   | Ok (a, (es, st)) when es <> [] || st = Ok () ->
+     Buffer.add_string b ("|valid=" ^ ints a.a_valid ^ "|invalid=" ^ ints a.a_invalid);
+     let only = (match items fuel g root with Ok l -> Some (List.map int_of_nat l) | _ -> None) in
+     Buffer.add_string b ("|annot=" ^ dump_annot ?only g a.a_lr a.a_lv);
+     Buffer.add_string b ("|entries=" ^ String.concat ";" (List.map show_entry es));
+     Buffer.add_string b ("|status=" ^ show_res (fun () -> "") st);
+     Buffer.add_string b ("|exec=" ^ String.concat ";"
+        (List.map (fun e -> show_res show_execv (executev fuel g root e.epath)) es))
+   | Ok (_, (_, st)) -> Buffer.add_string b ("|fail=" ^ show_res (fun () -> "") st)
+   | r -> Buffer.add_string b ("|fail=" ^ show_res (fun _ -> "") r));
+  Buffer.add_string b ("|xexec=" ^ String.concat ";"
+        (List.map (fun p -> show_res show_execv (executev fuel g root p)) xpaths))
+
+let run_go () =
+  let v = read_variant () in
+  let fuel = next_nat () in
+  let root = next_nat () in
+  let g = build (read_ops ()) in
+  match optimize fuel g root with
+  | Ok g' ->
+    let b = Buffer.create 1024 in
+    Buffer.add_string b ("opt=ok|graph=" ^ dump_graph g' ^ "|");
+    observe_g b v fuel g' root aempty aempty [];
+    print_endline (Buffer.contents b)
+  | r -> print_endline ("opt=" ^ show_res (fun _ -> "") r)
 
 (* stream G: graph program -> items, analysis, entries, execution of every entry, extra paths *)
 let run_g () =
@@ -100,7 +154,8 @@ let run_g () =
   (match generate_paths v fuel g root lr0 lv0 with
    | Ok (a, (es, st)) when es <> [] || st = Ok () ->
      Buffer.add_string b ("|valid=" ^ ints a.a_valid ^ "|invalid=" ^ ints a.a_invalid);
-     Buffer.add_string b ("|annot=" ^ dump_annot g a.a_lr a.a_lv);
+     let only = (match items fuel g root with Ok l -> Some (List.map int_of_nat l) | _ -> None) in
+     Buffer.add_string b ("|annot=" ^ dump_annot ?only g a.a_lr a.a_lv);
      Buffer.add_string b ("|entries=" ^ String.concat ";" (List.map show_entry es));
      Buffer.add_string b ("|status=" ^ show_res (fun () -> "") st);
      Buffer.add_string b ("|exec=" ^ String.concat ";"
@@ -222,6 +277,8 @@ let () =
         (try
            match ts.(0) with
            | "G" -> run_g ()
+           | "GR" -> run_gr ()
+           | "GO" -> run_go ()
            | "F" -> run_f ()
            | "O" -> run_o ()
            | t -> print_endline ("error=unknown-stream:" ^ t)
